@@ -25,6 +25,14 @@ KIND_ERRNOS = {"KRename": ["EXDEV"], "KWrite": ["EDQUOT"], "KCopy": ["EDQUOT"], 
 
 def build_storeop():
     src = os.path.join(vlib.VERIF, "harness", "storeop")
+    if vlib.REPO != "/repo":
+        # a run against another checkout (VERIF_REPO): build from a copy whose module points there
+        cp = os.path.join(vlib.BUILD, "storeop-src")
+        shutil.rmtree(cp, ignore_errors=True)
+        shutil.copytree(src, cp)
+        gm = open(os.path.join(cp, "go.mod")).read().replace("=> /repo", "=> " + vlib.REPO)
+        open(os.path.join(cp, "go.mod"), "w").write(gm)
+        src = cp
     shutil.copy(os.path.join(vlib.REPO, "go.sum"), os.path.join(src, "go.sum"))
     r = vlib.run(["go", "build", "-o", STOREOP, "."], cwd=src, env=vlib.GOENV)
     if r.returncode != 0:
